@@ -222,7 +222,7 @@ type httpCase struct {
 	body     string
 	reqCtx   string // "background", "todo", "cancel", "value", "deadline", "value+deadline", "cancelled-later"
 	execCtx  string // "none", "background", "cancel", "value"
-	stack    string // "none", "retry", "timeout", "hedge", "breaker", "fallback", "retry+timeout", "retry+hedge"
+	stack    string // "none", "retry", "retry-backoff", "timeout", "hedge", "breaker", "fallback", "retry+timeout", "retry+hedge"
 	script   []srvStep
 	via      string // "roundtripper", "do"
 	leakOnly bool   // C19: only the leak / close oracle
@@ -247,6 +247,8 @@ func (c httpCase) policies() []failsafe.Policy[*http.Response] {
 	switch c.stack {
 	case "retry":
 		return []failsafe.Policy[*http.Response]{rp()}
+	case "retry-backoff": // a backoff whose maxDelay is far below a Retry-After: the header still has to be waited for
+		return []failsafe.Policy[*http.Response]{failsafehttp.RetryPolicyBuilder().WithBackoff(10*time.Millisecond, 200*time.Millisecond).Build()}
 	case "timeout":
 		return []failsafe.Policy[*http.Response]{to()}
 	case "hedge":
@@ -506,7 +508,7 @@ func (c httpCase) check(ft *fakeTransport, origHeader http.Header, resp *http.Re
 		// the response finally returned is the last attempt's
 		last := ft.recs[len(ft.recs)-1]
 		if last.Resp != nil {
-			if c.stack == "retry" || c.stack == "none" || c.stack == "timeout" || c.stack == "breaker" || c.stack == "retry+timeout" || c.stack == "timeout+retry" {
+			if c.stack == "retry" || c.stack == "retry-backoff" || c.stack == "none" || c.stack == "timeout" || c.stack == "breaker" || c.stack == "retry+timeout" || c.stack == "timeout+retry" {
 				if resp != last.Resp && !(retrying && err != nil) {
 					return fmt.Sprintf("returned response %v is not the last attempt's (status %d), err=%v", respStatus(resp), last.Resp.StatusCode, err)
 				}
@@ -560,7 +562,7 @@ func c18Cases(tier string) []httpCase {
 		{"stream", "hello streamed body"}, {"seeker-direct", "hello body"}, {"seeker-direct", ""}, {"seeker-file", "hello body"}, {"bigstream", bigBody}}
 	reqCtxs := []string{"background", "todo", "cancel", "value", "deadline", "value+deadline"}
 	execCtxs := []string{"none", "background", "cancel", "value"}
-	stacks := []string{"none", "retry", "timeout", "hedge", "breaker", "fallback", "retry+timeout", "retry+hedge", "timeout+retry"}
+	stacks := []string{"none", "retry", "retry-backoff", "timeout", "hedge", "breaker", "fallback", "retry+timeout", "retry+hedge", "timeout+retry"}
 	ok := srvStep{Status: 200, Body: "response"}
 	scripts := [][]srvStep{
 		{ok},
@@ -611,7 +613,7 @@ func c18Cases(tier string) []httpCase {
 				out = append(out, httpCase{bodyKind: "stringsreader", body: "hello body", reqCtx: "value", execCtx: "none", stack: st, script: sc, via: "do"})
 			}
 			// every body kind against a connection reset in the middle of the upload
-			if st == "retry" || st == "retry+timeout" || st == "retry+hedge" {
+			if st == "retry" || st == "retry-backoff" || st == "retry+timeout" || st == "retry+hedge" {
 				for _, b := range bodies {
 					for _, sc := range scripts[5:7] {
 						out = append(out, httpCase{bodyKind: b.k, body: b.b, reqCtx: "background", execCtx: "none", stack: st, script: sc, via: "roundtripper"})
